@@ -75,7 +75,7 @@ def run(vc, tier):
     cat = vc.catalogue('quick')
     leg = legacy_records(vc)
     src = ['harness/c03_untrusted.c', 'ref/edu_decoder.c']
-    args = ['--cat', cat, '--stride', 6 if tier == 'quick' else 1, '--maxlen', 420 if tier == 'quick' else 1000, '--allvals', 20 if tier == 'quick' else 96, '--D', 0, '--parts', 1 if tier == 'quick' else 8, '--exec-timeout', 20000 if tier == 'quick' else 180000]
+    args = ['--cat', cat, '--stride', 8 if tier == 'quick' else 1, '--maxlen', 420 if tier == 'quick' else 1000, '--allvals', 20 if tier == 'quick' else 96, '--D', 0, '--parts', 1 if tier == 'quick' else 8, '--exec-timeout', 20000 if tier == 'quick' else 180000]
     if leg:
         args += ['--extra', leg]
     r0 = c.run_vx_unit('c03-special', src, 'asan', args + ['--sel', 1], share=0.45)       # raw-literal tails, checksum x length frames, compressor streams, legacy frames (golden + hand-built)
